@@ -16,13 +16,16 @@ Byte strings are hex, the empty string is `-`.
   q <metric> <groupKey,groupKey|-> <cond>          -> ok s=<ids> g=<groups> | err <kind> | panic
       cond (prefix form): eq K V | in K n V1..Vn | like K V | rx K P | not C | paren C | and C C | or C C | badop C C
   fwdread <highKey> | s:v s:v ...                  -> none | low:v ...        (tagForwardReader on a file built from the entries)
-  fwdmerge | s:v ... | s:v ...                     -> s:v ...                 (forwardIndexMerger over files built from the entries)
+  fwdmerge | s:v ... | s:v ...                     -> s:v ...                 (forwardIndexMerger, cursor-level model `mergeRaw`, over files built from the entries)
+  fwdjob | <key> s:v ... / s:v ... | <key> ...      -> <key>=s:v,... ...       (ONE merger object merging several tag keys in turn: `mergeJob`)
 
 The code facts (`Flags`) come from LinVerif.Generated.C10.
 -/
 import LinVerif.Util.Proto
 import LinVerif.Model.TagFilter
+import LinVerif.Model.TagFilterHeap
 import LinVerif.Generated.C10
+import LinVerif.Generated.C10Ops
 
 namespace LinVerif.Driver.C10
 open LinVerif LinVerif.TagFilter
@@ -179,6 +182,39 @@ def fileOf (es : List (Nat × Nat)) : List Container :=
   | (_, cs) :: _ => cs
   | [] => []
 
+
+/-- does `getSeriesIDsByExpr` hand out remembered bitmap objects / is the merger's buffer truncated per
+container: regenerated facts -/
+def memoNow : Bool := !Generated.C10Ops.atomBitmapsFresh
+def perContainerNow : Bool := Generated.C10Ops.mergeResetPerContainer
+
+/-- a merged raw entry read by its documented layout (bitmap, then one value id per series in bitmap
+order), as the harness's `decodeEntry` does -/
+def showEntry (e : RawEntry) : String :=
+  let ids := e.bitmap.flatMap (fun c => c.2.map (fun l => c.1 * 65536 + l))
+  if e.vals.length ≠ ids.length then s!"err-entry-{e.vals.length}-values-{ids.length}-series"
+  else if ids.isEmpty then "-"
+  else ",".intercalate ((ids.zip e.vals).map (fun (s, v) => s!"{s}:{v}"))
+
+def showMerged (r : Option (RawEntry × List ValId)) : String :=
+  match r with
+  | none => "err panic"
+  | some (e, _) => (showEntry e).replace "," " "
+
+def splitSlash (ws : List String) : List (List String) :=
+  ws.foldr (fun w acc => if w = "/" then [] :: acc else
+    match acc with
+    | [] => [[w]]
+    | h :: t => (w :: h) :: t) [[]]
+
+def parseJob (ws : List String) : Option (KeyId × List RawEntry) :=
+  match ws with
+  | k :: rest => do
+    let k ← k.toNat?
+    let files ← (splitSlash rest).mapM (fun f => f.mapM parseSV)
+    some (k, files.map (fun es => rawOf (fileOf es)))
+  | [] => none
+
 /-- placement ops answer with the number of level-0 files of the stores they touch -/
 def readOrder : ReadOrder :=
   { dictScanMemFirst := Generated.C10.dictScanMemFirst
@@ -267,7 +303,8 @@ def step (d : DSt) (ws : List String) : DSt × String :=
       -- every regexp of the condition needs its table row
       if (rxPatterns c).any (fun p => (Map.lookup d.rx p).isNone) then (d, "bad-op")
       else
-        match leafQuery flags (matcherOf d.rx) d.st m keys c with
+        -- series filtering on bitmap OBJECTS (in-place and/or/not); `memoNow` from the regenerated facts
+        match leafQueryHeap flags memoNow (matcherOf d.rx) d.st m keys c with
         | .error e => (d, showErr e)
         | .ok r =>
           let g := match r.groups with
@@ -301,11 +338,15 @@ def step (d : DSt) (ws : List String) : DSt × String :=
     | _, _ => (d, "bad-op")
   | "fwdmerge" :: "|" :: rest =>
     match (splitBar rest).mapM (fun f => f.mapM parseSV) with
-    | some files =>
-      let merged := mergeFwdFiles flags.lutCumulative (files.map (fun es => [(0, fileOf es)]))
-      let es := (fileEntries merged).map (fun e => (e.2.1, e.2.2))
-      let a := (es.toArray.qsort (fun x y => x.1 < y.1)).toList
-      (d, if a.isEmpty then "-" else " ".intercalate (a.map (fun (s, v) => s!"{s}:{v}")))
+    | some files => (d, showMerged (mergeRaw perContainerNow [] (files.map (fun es => rawOf (fileOf es)))))
+    | none => (d, "bad-op")
+  | "fwdjob" :: "|" :: rest =>
+    -- one merger object, several tag keys in turn: `| <key> s:v ... / s:v ... | <key> ...`
+    match (splitBar rest).mapM parseJob with
+    | some jobs =>
+      match mergeJob perContainerNow [] jobs with
+      | none => (d, "err panic")
+      | some outs => (d, " ".intercalate (outs.map (fun ke => s!"{ke.1}={showEntry ke.2}")))
     | none => (d, "bad-op")
   | _ => (d, "bad-op")
 
